@@ -391,6 +391,21 @@ impl Ctx {
         rep
     }
 
+    /// Record a sub-check that was executed outside the sweep / BFS engines (a single case).
+    pub fn absorb_external(&mut self, name: &str, space: &str, acc: Acc) -> SubReport {
+        if let Some(t) = &self.replay {
+            if t.sub != name {
+                return self.skipped(name);
+            }
+        }
+        let mut acc = acc;
+        acc.sub = name.to_string();
+        for v in acc.viols.values_mut() {
+            v.sub = name.to_string();
+        }
+        self.absorb(name, space, 1, acc, 0.0)
+    }
+
     pub(crate) fn skipped(&mut self, name: &str) -> SubReport {
         SubReport {
             name: name.to_string(),
